@@ -146,6 +146,21 @@ CHECKS = {
             {"name": "c08-race", "bin": "cmdglyph", "build": "inpkg:cmd/glyph", "run": "^TestC08Conc$", "race": True, "reports_as": "c08-conc", "quick": 400, "thorough": 30000, "gomaxprocs": 8},
         ],
     },
+    "C09": {
+        "level": "model_based_exploration",
+        "manifest": {
+            "technique": "property-based testing (rapid): generated async/await programs run repeatedly and concurrently in both execution modes against the value their sequential reading gives; model-based testing of the Future API and its All/Race/Any combinators with a harness-owned settle schedule; all under the race detector as well",
+            "level_text": "Programs: a route declares two base variables, spawns 1-4 async blocks drawn from templates (straight-line, if/else with returns, while loop, for loop, nested async+await, object result, loops and branches with a nested block, division by zero), each followed by 0-4 parent statements that keep declaring and assigning the parent's own variables (including loops) while the blocks run, then awaits the blocks in a generated order, possibly several times each, possibly not at all. The expected response is computed in Go from the template parameters. Each case runs 4-15 times in sequence and 18 more times from 6 concurrent requests, through the real request path in the default (compiled) mode or --interpret; every response must equal the expected one (or be a 5xx when an awaited block raises), no handler may panic, nothing may block, and the goroutine count returns to its start-up value. Futures: 1-5 futures, 0-3 awaiters each (awaiting twice), a combinator (All, Race, Any or none) created before or after some futures are settled, and steps that resolve/reject/cancel a future with 1-3 calls, sequentially (first wins) or from goroutines at once (any one of them wins, and never changes); after each step the model states each future's outcome (including the cancellations All and Race perform) and whether the combinator must be pending or settled with which value. Process death and race-detector reports are violations.",
+            "level_note": "Blocks read only variables the parent does not assign after the spawn: the property is about programs whose blocks communicate through await only. Block-local names are unique per route because the compiler keeps one symbol table per route. A Race or Any created over several already-settled futures may pick any of them. Goroutine accounting for Any is skipped: its helper goroutines wait for futures that legitimately stay pending.",
+        },
+        "rule": ("programs: non-trivial = at least one block has parent statements running after its spawn and at least one await (distinct = hash of the case); futures: non-trivial = a combinator and at least one settle step"),
+        "assumptions": ["the expected value of a block template is computed by a Go transcription of the template, kept next to its source text in the test"],
+        "units": [
+            {"name": "c09-async", "bin": "cmdglyph", "build": "inpkg:cmd/glyph", "run": "^TestC09Async$", "quick": 1500, "thorough": 100000, "gomaxprocs": 8},
+            {"name": "c09-race", "bin": "cmdglyph", "build": "inpkg:cmd/glyph", "run": "^TestC09Async$", "race": True, "reports_as": "c09-async", "quick": 400, "thorough": 30000, "gomaxprocs": 8},
+            {"name": "c09-future", "bin": "c09", "build": "harness:c09", "run": "^TestC09Future$", "race": True, "quick": 6000, "thorough": 300000, "gomaxprocs": 4, "shrinktime": "10s"},
+        ],
+    },
     "C10": {
         "level": "exploration",
         "manifest": {
